@@ -77,6 +77,16 @@ def main(args):
     killed = sum(1 for r in results if r.get("killed"))
     print(f"mutants killed: {killed}/{len(results)}")
     out = os.path.join(common.VERIF, "selftest", "mutants_last.json")
+    merged = {}
+    if os.path.exists(out):
+        try:
+            with open(out) as fh:
+                merged = {r["id"]: r for r in json.load(fh)}
+        except (OSError, ValueError):
+            merged = {}
+    valid = {m["id"] for m in MUTANTS}
+    for r in results:
+        merged[r["id"]] = r
     with open(out, "w") as fh:
-        json.dump(results, fh, indent=1)
+        json.dump([merged[k] for k in sorted(merged) if k in valid], fh, indent=1)
     return 0 if killed == len(results) else 1
